@@ -157,7 +157,7 @@ func RunSeq(p Params) *Result {
 		s.V = s.Foreign // nothing the property owns fired afterwards: the run reports its foreign divergence
 	}
 	res := &Result{Params: p, V: s.V, Digest: w.Digest(), Class: cfg0.Class(), Steps: w.Steps,
-		SimMs: int64(w.Now() / 1e6), NOps: len(kept), Stats: s.Stats, Config: cfg0.String(), Decisions: len(w.Decisions)}
+		SimMs: int64(w.Now() / 1e6), NOps: len(kept), Stats: s.Stats, Config: cfg0.String(), Decisions: len(w.Decisions), Known: s.KnownSample}
 	if w.OverSteps && s.V == nil {
 		res.Incon = "step budget exhausted"
 	}
